@@ -196,7 +196,7 @@ MAP_CORE = [("grow", 150, 4000), ("churn", 250, 8000), ("saturate", 120, 4000), 
 PROPS = {
     "C17": dict(
         module="Hb.Props.C17",
-        ties=[("pure", {}), ("t1", {}), ("scen", "reserve", 120, 4000)],
+        ties=[("pure", {}), ("t1", {}), ("scen", "reserve", 120, 4000), ("custom", extras_oracle)],
         backends=["sse2", "portable"],
         design="§7 C17",
         text="Lean theorems for all capacities/sizes/alignments/table sizes (no bound); model tied to the source by "
@@ -415,6 +415,7 @@ PROPS = {
     ),
     "C14": dict(
         module="Hb.Props.C14",
+        more_modules=["Hb.Props.C14RawOther"],
         ties=[("scen", "entry-full", 250, 8000), ("scen", "entry", 250, 8000), ("scen", "entry-sat", 150, 5000), ("scen", "set", 150, 5000), ("scen", "panic-entry", 4, 100), ("t1", {}), ("custom", extras_oracle)],
         backends=["sse2", "portable"],
         design="§7 C14",
@@ -708,6 +709,7 @@ T1_GROUPS = [
     (r"calculate_layout|TableLayout", {"C17", "C12", "C02", "C08"}),
     (r"insert|record_item|erase|find_|fix_insert|probe|h1|move_next|is_in_same_group|set_ctrl|index",
      {"C01", "C02", "C05", "C06", "C13", "C14"}),
+    (r"probe|ProbeSeq|h1|move_next", {"C17"}),
     (r"rehash_in_place|clear|RawDrain", {"C13", "C10", "C04", "C03", "C02", "C01", "C06"}),
     (r"clone_from", {"C11", "C03", "C04", "C02"}),
     (r"replace_bucket_with", {"C14", "C04", "C02", "C13"}),
